@@ -19,38 +19,38 @@ package mp4
 
 //@ func (*StszBox).GetNrSamples
 //@   requires stszOK(b)
-//@   ensures result == b.SampleNumber
+//@   ensures[C09] result == b.SampleNumber
 //@   assigns nothing
 
 //@ func (*StszBox).GetSampleSize
 //@   requires stszOK(b)
 //@   requires 1 <= i && i <= int(b.SampleNumber)
-//@   ensures result == stszSize(b, i)
+//@   ensures[C09] result == stszSize(b, i)
 //@   assigns nothing
 
 // endNr == 0xFFFFFFFF (possible only with a 16 GiB table) makes the uint32 loop counter wrap: excluded, see report.
 //@ func (*StszBox).GetTotalSampleSize
 //@   requires stszOK(b)
 //@   requires b.SampleUniformSize == 0 ==> b.SampleNumber < 0xFFFFFFFF
-//@   ensures (result1 != nil) == (startNr == 0 || endNr > b.SampleNumber)
+//@   ensures[C09] (result1 != nil) == (startNr == 0 || endNr > b.SampleNumber)
 //@   ensures result1 != nil ==> result0 == 0
-//@   ensures result1 == nil && endNr < startNr ==> result0 == 0
-//@   ensures result1 == nil && endNr >= startNr && b.SampleUniformSize != 0 ==> result0 == uint64(endNr - startNr + 1) * uint64(b.SampleUniformSize)
-//@   ensures result1 == nil && endNr >= startNr && b.SampleUniformSize == 0 ==> result0 == u32Sum(b.SampleSize, int(startNr) - 1, int(endNr))
+//@   ensures[C09] result1 == nil && endNr < startNr ==> result0 == 0
+//@   ensures[C09] result1 == nil && endNr >= startNr && b.SampleUniformSize != 0 ==> result0 == uint64(endNr - startNr + 1) * uint64(b.SampleUniformSize)
+//@   ensures[C09] result1 == nil && endNr >= startNr && b.SampleUniformSize == 0 ==> result0 == u32Sum(b.SampleSize, int(startNr) - 1, int(endNr))
 //@   assigns nothing
 //@   loop 1 invariant startNr <= nr && nr <= endNr + 1 && size == u32Sum(b.SampleSize, int(startNr) - 1, int(nr) - 1)
 
 // ---------------------------------------------------------------- stco / co64 (8.7.5)
 //@ func (*StcoBox).GetOffset
-//@   ensures (result1 != nil) == (chunkNr <= 0 || chunkNr > len(b.ChunkOffset))
+//@   ensures[C09] (result1 != nil) == (chunkNr <= 0 || chunkNr > len(b.ChunkOffset))
 //@   ensures result1 != nil ==> result0 == 0
-//@   ensures result1 == nil ==> result0 == uint64(b.ChunkOffset[chunkNr-1])
+//@   ensures[C09] result1 == nil ==> result0 == uint64(b.ChunkOffset[chunkNr-1])
 //@   assigns nothing
 
 //@ func (*Co64Box).GetOffset
-//@   ensures (result1 != nil) == (chunkNr <= 0 || chunkNr > len(b.ChunkOffset))
+//@   ensures[C09] (result1 != nil) == (chunkNr <= 0 || chunkNr > len(b.ChunkOffset))
 //@   ensures result1 != nil ==> result0 == 0
-//@   ensures result1 == nil ==> result0 == b.ChunkOffset[chunkNr-1]
+//@   ensures[C09] result1 == nil ==> result0 == b.ChunkOffset[chunkNr-1]
 //@   assigns nothing
 
 // ---------------------------------------------------------------- stts (8.6.1.2)
@@ -79,9 +79,9 @@ package mp4
 //@ func (*SttsBox).GetDecodeTime
 //@   requires sttsOK(b)
 //@   requires 1 <= sampleNr && uint64(sampleNr) <= sttsTotal(b)
-//@   ensures sttsAt(b, sampleNr, sttsEntry(b, sampleNr), sttsPos(b, sampleNr))
-//@   ensures decTime == sttsDTat(b, sttsEntry(b, sampleNr), sttsPos(b, sampleNr))
-//@   ensures dur == b.SampleTimeDelta[sttsEntry(b, sampleNr)]
+//@   ensures[C09] sttsAt(b, sampleNr, sttsEntry(b, sampleNr), sttsPos(b, sampleNr))
+//@   ensures[C09] decTime == sttsDTat(b, sttsEntry(b, sampleNr), sttsPos(b, sampleNr))
+//@   ensures[C09] dur == b.SampleTimeDelta[sttsEntry(b, sampleNr)]
 //@   assigns nothing
 //@   loop 1 invariant 0 <= i && i < len(b.SampleCount) && sttsCount(b.SampleCount, i) + uint64(samplesRemaining) == uint64(sampleNr) - 1 && sttsCount(b.SampleCount, i) < uint64(sampleNr) && decTime == sttsTime(b.SampleCount, b.SampleTimeDelta, i)
 //@   loop 1 invariant sttsEntry(b, sampleNr) == sttsEnt(b.SampleCount, i, samplesRemaining, len(b.SampleCount)) && sttsPos(b, sampleNr) == sttsRem(b.SampleCount, i, samplesRemaining, len(b.SampleCount))
@@ -93,7 +93,7 @@ package mp4
 //@ func (*SttsBox).GetDur
 //@   requires sttsOK(b)
 //@   requires 1 <= sampleNr && uint64(sampleNr) <= sttsTotal(b)
-//@   ensures sttsAt(b, sampleNr0, sttsEntry(b, sampleNr0), sttsPos(b, sampleNr0)) && dur == b.SampleTimeDelta[sttsEntry(b, sampleNr0)]
+//@   ensures[C09] sttsAt(b, sampleNr0, sttsEntry(b, sampleNr0), sttsPos(b, sampleNr0)) && dur == b.SampleTimeDelta[sttsEntry(b, sampleNr0)]
 //@   assigns nothing
 //@   loop 1 invariant 0 <= i && i <= len(b.SampleCount) && sttsCount(b.SampleCount, i) + uint64(sampleNr) == uint64(sampleNr0) - 1 && sttsCount(b.SampleCount, i) < uint64(sampleNr0)
 //@   loop 1 invariant sttsEntry(b, sampleNr0) == sttsEnt(b.SampleCount, i, sampleNr, len(b.SampleCount)) && sttsPos(b, sampleNr0) == sttsRem(b.SampleCount, i, sampleNr, len(b.SampleCount))
@@ -106,58 +106,85 @@ package mp4
 //@ spec tcPos(b *SttsBox, s uint32) uint32 = tcRem(b.SampleCount, 0, s - 1, len(b.SampleCount))
 //@ pred sttsAtLe(b *SttsBox, s uint32, k int, r uint32) = 0 <= k && k < len(b.SampleCount) && r <= b.SampleCount[k] && sttsCount(b.SampleCount, k) + uint64(r) == uint64(s) - 1
 
-// ISO: the time code of sample s is DT(s) time units = DT(s) * 1s / timescale. The code accumulates DT in a uint32
-// (stts.go:78), so it agrees with ISO only while DT(s) < 2^32 (13.25 h at 90 kHz): clause ISO below FAILS (finding).
+// ISO: the time code of sample s is DT(s) time units = DT(s) * 1s / timescale (time.Duration is int64 nanoseconds).
+// The repaired code accumulates DT in a uint64 like GetDecodeTime. The product 10^9 * DT is formed in int64 before the
+// division, so it is exact while DT <= 9223372036 (2^63 / 10^9; 28.4 h at 90 kHz): clause C09 is stated for that range,
+// the untagged clause before it is the machine-arithmetic statement for every DT (FINDING F7: overflow above that).
+// sample == total+1 is allowed: it is the one-past-the-end position, DT = end of the table (for an empty table only
+// sample 1 = total+1 is allowed: its time code is 0; the witnesses need an entry, hence the guard len > 0).
 //@ func (*SttsBox).GetTimeCode
 //@   requires sttsOK(b)
-//@   requires 1 <= sample && uint64(sample) <= sttsTotal(b)
+//@   requires 1 <= sample && uint64(sample) <= sttsTotal(b) + 1
 //@   requires timescale > 0
-//@   ensures sttsAtLe(b, sample0, tcEntry(b, sample0), tcPos(b, sample0))
-//@   ensures int64(result) == 1000000000 * int64(uint32(sttsDTat(b, tcEntry(b, sample0), tcPos(b, sample0)))) / int64(timescale)
-//@   ensures[ISO] sttsDTat(b, tcEntry(b, sample0), tcPos(b, sample0)) < (1 << 33) ==> int64(result) == 1000000000 * int64(sttsDTat(b, tcEntry(b, sample0), tcPos(b, sample0))) / int64(timescale)
+//@   ensures[C09] sample0 == 1 ==> result == 0
+//@   ensures[C09] len(b.SampleCount) > 0 ==> sttsAtLe(b, sample0, tcEntry(b, sample0), tcPos(b, sample0))
+//@   ensures len(b.SampleCount) > 0 ==> int64(result) == 1000000000 * int64(sttsDTat(b, tcEntry(b, sample0), tcPos(b, sample0))) / int64(timescale)
+//@   ensures[C09] len(b.SampleCount) > 0 && sttsDTat(b, tcEntry(b, sample0), tcPos(b, sample0)) <= 9223372036 ==> int64(result) == 1000000000 * int64(sttsDTat(b, tcEntry(b, sample0), tcPos(b, sample0))) / int64(timescale) && int64(result) >= 0
 //@   assigns nothing
 //@   loop 1 decreases len(b.SampleCount) - i
-//@   loop 1 invariant 0 <= i && i <= len(b.SampleCount)
-//@   loop 1 invariant sample > 0 ==> sttsCount(b.SampleCount, i) + uint64(sample) == uint64(sample0) - 1 && sttsCount(b.SampleCount, i) < uint64(sample0) && units == uint32(sttsTime(b.SampleCount, b.SampleTimeDelta, i))
+//@   loop 1 invariant 0 <= i && i <= len(b.SampleCount) && (sample0 == 1 ==> units == 0 && sample == 0)
+//@   loop 1 invariant sample > 0 ==> sttsCount(b.SampleCount, i) + uint64(sample) == uint64(sample0) - 1 && sttsCount(b.SampleCount, i) < uint64(sample0) && units == sttsTime(b.SampleCount, b.SampleTimeDelta, i)
 //@   loop 1 invariant sample > 0 ==> tcEntry(b, sample0) == tcEnt(b.SampleCount, i, sample, len(b.SampleCount)) && tcPos(b, sample0) == tcRem(b.SampleCount, i, sample, len(b.SampleCount))
 // the next two invariants are consequences of the previous ones (one unfolding), stated to spare the solver the unfolding inside nonlinear goals
 //@   loop 1 invariant i < len(b.SampleCount) && sample > 0 && sample <= b.SampleCount[i] ==> tcEntry(b, sample0) == i && tcPos(b, sample0) == sample
-//@   loop 1 invariant i < len(b.SampleCount) && sample > 0 && tcEntry(b, sample0) == i && tcPos(b, sample0) == sample ==> uint32(sttsDTat(b, tcEntry(b, sample0), tcPos(b, sample0))) == units + sample * b.SampleTimeDelta[i]
-//@   loop 1 invariant i < len(b.SampleCount) && sample > 0 && sample == b.SampleCount[i] && tcEntry(b, sample0) == i && tcPos(b, sample0) == sample ==> uint32(sttsDTat(b, tcEntry(b, sample0), tcPos(b, sample0))) == units + b.SampleCount[i] * b.SampleTimeDelta[i]
+//@   loop 1 invariant i < len(b.SampleCount) && sample > 0 && tcEntry(b, sample0) == i && tcPos(b, sample0) == sample ==> sttsDTat(b, tcEntry(b, sample0), tcPos(b, sample0)) == sttsTime(b.SampleCount, b.SampleTimeDelta, i) + uint64(sample) * uint64(b.SampleTimeDelta[i])
+//@   loop 1 invariant i < len(b.SampleCount) && sample > 0 && sample == b.SampleCount[i] && tcEntry(b, sample0) == i && tcPos(b, sample0) == sample ==> sttsDTat(b, tcEntry(b, sample0), tcPos(b, sample0)) == sttsTime(b.SampleCount, b.SampleTimeDelta, i) + uint64(b.SampleCount[i]) * uint64(b.SampleTimeDelta[i])
 //@   loop 1 invariant sample > 0 ==> i < len(b.SampleCount)
 // (trivial by substitution; stated so that the division in the postcondition needs no bit-level reasoning)
-//@   loop 1 invariant units == uint32(sttsDTat(b, tcEntry(b, sample0), tcPos(b, sample0))) ==> 1000000000 * int64(units) / int64(timescale) == 1000000000 * int64(uint32(sttsDTat(b, tcEntry(b, sample0), tcPos(b, sample0)))) / int64(timescale)
-//@   loop 1 invariant sample == 0 ==> sttsAtLe(b, sample0, tcEntry(b, sample0), tcPos(b, sample0)) && units == uint32(sttsDTat(b, tcEntry(b, sample0), tcPos(b, sample0)))
+//@   loop 1 invariant units == sttsDTat(b, tcEntry(b, sample0), tcPos(b, sample0)) ==> 1000000000 * int64(units) / int64(timescale) == 1000000000 * int64(sttsDTat(b, tcEntry(b, sample0), tcPos(b, sample0))) / int64(timescale)
+//@   loop 1 invariant sample == 0 && len(b.SampleCount) > 0 ==> sttsAtLe(b, sample0, tcEntry(b, sample0), tcPos(b, sample0)) && units == sttsDTat(b, tcEntry(b, sample0), tcPos(b, sample0))
 
-// GetSampleNrAtTime(t): the first sample whose decode time is >= t ("sample at a time").
+// GetSampleNrAtTime(t), documented as "the 1-based sample number at or as soon as possible after time":
+// the smallest n in 1..N+1 with DT(n) >= t, where N+1 is the one-past-the-end marker with DT(N+1) = end of the table;
+// an error when t is beyond the end of the table.
 // snEnt: Skolem function for the first entry k with t < sttsTime(k+1) (n if there is none).
 //@ spec rec snEnt(cnt []uint32, dlt []uint32, k int, t uint64, n int) int = ite(k >= n || k < 0, n, ite(t < sttsTime(cnt, dlt, k+1), k, snEnt(cnt, dlt, k+1, t, n)))
 //@ spec snEntry(b *SttsBox, t uint64) int = snEnt(b.SampleCount, b.SampleTimeDelta, 0, t, len(b.SampleCount))
 //@ spec ceilDiv(a uint64, d uint64) uint64 = ite(a % d != 0, a / d + 1, a / d)
 //@ spec sttsEnd(b *SttsBox) uint64 = sttsTime(b.SampleCount, b.SampleTimeDelta, len(b.SampleCount))
+// position (0-based, may be cnt[K] = one past the entry) inside entry K = snEntry(b, t) of the first sample at or after t
+//@ spec snPos(b *SttsBox, t uint64) uint64 = ceilDiv(t - sttsTime(b.SampleCount, b.SampleTimeDelta, snEntry(b, t)), uint64(b.SampleTimeDelta[snEntry(b, t)]))
 // the ISO special case: only the last sample may have duration 0; it is then found at t == end of the table
-//@ pred snLastZero(b *SttsBox, t uint64) = b.SampleTimeDelta[len(b.SampleCount)-1] == 0 && b.SampleCount[len(b.SampleCount)-1] == 1 && t == sttsEnd(b)
+//@ pred snLastZero(b *SttsBox, t uint64) = len(b.SampleCount) > 0 && b.SampleTimeDelta[len(b.SampleCount)-1] == 0 && b.SampleCount[len(b.SampleCount)-1] == 1 && t == sttsEnd(b)
 
-// sample numbers fit in 32 bits (ISO sample numbers are 32-bit)
-//@ pred sttsCountsFit(b *SttsBox) = sttsTotal(b) <= 0xFFFFFFFF
+// sample numbers 1..N+1 fit in 32 bits (ISO sample numbers are 32-bit)
+//@ pred sttsCountsFit(b *SttsBox) = sttsTotal(b) < 0xFFFFFFFF
+// the decode times do not wrap around 2^64: the partial sums are non-decreasing (each addend is < 2^64, so this is
+// exactly "no addition wraps")
+//@ pred sttsTimeFits(b *SttsBox) = forall j int :: forall k int :: 0 <= j && j <= k && k <= len(b.SampleCount) ==> sttsTime(b.SampleCount, b.SampleTimeDelta, j) <= sttsTime(b.SampleCount, b.SampleTimeDelta, k)
 
-// Preconditions: a non-empty table (FINDING: an empty stts panics at stts.go:204), fewer than 2^32 samples.
-// Times are stated modulo 2^64 (sttsTime wraps like the code does). With K = snEntry(b, t):
-//   K <  len: sttsTime(K) <= t < sttsTime(K+1), result = count(K) + ceil((t - sttsTime(K)) / dlt[K]) + 1, no error
-//   K == len: t >= end of table; error unless the ISO special case (last sample of duration 0 starting exactly at t)
-// Clause ISO (the returned sample exists) FAILS: for DT(last) < t < end of table the code returns total+1 without error.
+// With K = snEntry(b, t) (characterised by clauses 2 and 3: entry K covers [sttsTime(K), sttsTime(K+1)) which contains t;
+// K is unique when the decode times do not wrap, sttsTimeFits) and r = snPos(b, t):
+//   K <  len: no error, result = count(K) + r + 1: position r <= cnt[K] of entry K, DT = sttsTime(K) + r*dlt[K] >= t
+//             and the sample before it in the entry (r > 0) has DT < t;  r == cnt[K] in the last non-empty entry is N+1
+//   K == len: t >= end of the table: error, except for the ISO special case (last sample of duration 0 starting exactly
+//             at t == end), where the result is N (DT(N) == end == t)
+// In terms of the end of the table (K == len <=> t >= end when the decode times do not wrap, sttsTimeFits; only the
+// direction K == len ==> t >= end is proved, the other one is monotonicity of the partial sums): t < end: no error; t > end: error;
+// t == end: the semantics above gives N+1 (or N in the special case) without error, the code returns an error unless
+// the special case applies (stated by the untagged clause before it): the last clause FAILS (finding F8; the
+// repository's own test expects the error).
 //@ func (*SttsBox).GetSampleNrAtTime
 //@   requires sttsOK(b) && sttsCountsFit(b)
-//@   requires len(b.SampleCount) > 0
 //@   ensures 0 <= snEntry(b, sampleStartTime) && snEntry(b, sampleStartTime) <= len(b.SampleCount)
-//@   ensures (err != nil) == (snEntry(b, sampleStartTime) == len(b.SampleCount) && !snLastZero(b, sampleStartTime))
-//@   ensures err != nil ==> sampleNr == 0
-//@   ensures snEntry(b, sampleStartTime) == len(b.SampleCount) ==> sampleStartTime >= sttsEnd(b)
-//@   ensures err == nil && snEntry(b, sampleStartTime) == len(b.SampleCount) ==> uint64(sampleNr) == sttsTotal(b)
-//@   ensures snEntry(b, sampleStartTime) != len(b.SampleCount) ==> sttsTime(b.SampleCount, b.SampleTimeDelta, snEntry(b, sampleStartTime)) <= sampleStartTime && sampleStartTime < sttsTime(b.SampleCount, b.SampleTimeDelta, snEntry(b, sampleStartTime) + 1)
+//@   ensures[C09] snEntry(b, sampleStartTime) != len(b.SampleCount) ==> sttsTime(b.SampleCount, b.SampleTimeDelta, snEntry(b, sampleStartTime)) <= sampleStartTime && sampleStartTime < sttsTime(b.SampleCount, b.SampleTimeDelta, snEntry(b, sampleStartTime) + 1)
+//@   ensures[C09] snEntry(b, sampleStartTime) == len(b.SampleCount) ==> sampleStartTime >= sttsEnd(b)
+//@   ensures[C09] (err != nil) == (snEntry(b, sampleStartTime) == len(b.SampleCount) && !snLastZero(b, sampleStartTime))
+//@   ensures[C09] err != nil ==> sampleNr == 0
+//@   ensures[C09] err == nil && snEntry(b, sampleStartTime) == len(b.SampleCount) ==> uint64(sampleNr) == sttsTotal(b)
 //@   ensures snEntry(b, sampleStartTime) != len(b.SampleCount) ==> b.SampleTimeDelta[snEntry(b, sampleStartTime)] != 0
-//@   ensures snEntry(b, sampleStartTime) != len(b.SampleCount) ==> sampleNr == uint32(sttsCount(b.SampleCount, snEntry(b, sampleStartTime))) + uint32(ceilDiv(sampleStartTime - sttsTime(b.SampleCount, b.SampleTimeDelta, snEntry(b, sampleStartTime)), uint64(b.SampleTimeDelta[snEntry(b, sampleStartTime)]))) + 1
-//@   ensures[ISO] err == nil ==> uint64(sampleNr) <= sttsTotal(b)
+//@   ensures[C09] snEntry(b, sampleStartTime) != len(b.SampleCount) ==> sampleNr == uint32(sttsCount(b.SampleCount, snEntry(b, sampleStartTime))) + uint32(snPos(b, sampleStartTime)) + 1
+// NOT PROVED (64-bit nonlinear arithmetic on ceilDiv, the solvers do not decide them in the time budget; stated as comments):
+//     snEntry(b, sampleStartTime) != len(b.SampleCount) ==> snPos(b, sampleStartTime) <= uint64(b.SampleCount[snEntry(b, sampleStartTime)]) && sttsCount(b.SampleCount, snEntry(b, sampleStartTime)) + snPos(b, sampleStartTime) == uint64(sampleNr) - 1
+//     snEntry(b, sampleStartTime) != len(b.SampleCount) ==> sttsTime(b.SampleCount, b.SampleTimeDelta, snEntry(b, sampleStartTime)) + snPos(b, sampleStartTime) * uint64(b.SampleTimeDelta[snEntry(b, sampleStartTime)]) >= sampleStartTime
+//     snEntry(b, sampleStartTime) != len(b.SampleCount) && snPos(b, sampleStartTime) > 0 ==> sttsTime(b.SampleCount, b.SampleTimeDelta, snEntry(b, sampleStartTime)) + (snPos(b, sampleStartTime) - 1) * uint64(b.SampleTimeDelta[snEntry(b, sampleStartTime)]) < sampleStartTime
+//@   ensures[C09] sampleStartTime < sttsEnd(b) ==> err == nil && snEntry(b, sampleStartTime) != len(b.SampleCount)
+//@   ensures[C09] snEntry(b, sampleStartTime) == len(b.SampleCount) && sampleStartTime > sttsEnd(b) ==> err != nil
+//@   ensures snEntry(b, sampleStartTime) == len(b.SampleCount) && sampleStartTime == sttsEnd(b) ==> (err != nil) == !snLastZero(b, sampleStartTime)
+// FAILS (finding F8, Go test TestC09GetSampleNrAtTimeAtEnd): the solvers answer unknown after 120 s (no model with the
+// recursive functions) and that eats the time budget of the other obligations of the run, so it is disabled here; to
+// reproduce put //@ in front of the next line and run with -kinds post -timeout 60000:
+//     ensures[C09] snEntry(b, sampleStartTime) == len(b.SampleCount) && sampleStartTime == sttsEnd(b) ==> err == nil
 //@   assigns nothing
 //@   loop 1 invariant 0 <= i && i <= nrEntries && nrEntries == len(b.SampleCount)
 //@   loop 1 invariant accTime == sttsTime(b.SampleCount, b.SampleTimeDelta, i) && accNr == uint32(sttsCount(b.SampleCount, i)) && accTime <= sampleStartTime
@@ -165,7 +192,7 @@ package mp4
 // consequences of the invariants above (one unfolding / substitution), stated to keep unfolding out of the nonlinear goals
 //@   loop 1 invariant i < nrEntries ==> accTime + uint64(b.SampleCount[i])*uint64(b.SampleTimeDelta[i]) == sttsTime(b.SampleCount, b.SampleTimeDelta, i+1)
 //@   loop 1 invariant i < nrEntries && sampleStartTime < sttsTime(b.SampleCount, b.SampleTimeDelta, i+1) ==> snEntry(b, sampleStartTime) == i
-//@   loop 1 invariant i < nrEntries && snEntry(b, sampleStartTime) == i ==> ceilDiv(sampleStartTime - sttsTime(b.SampleCount, b.SampleTimeDelta, snEntry(b, sampleStartTime)), uint64(b.SampleTimeDelta[snEntry(b, sampleStartTime)])) == ceilDiv(sampleStartTime - sttsTime(b.SampleCount, b.SampleTimeDelta, i), uint64(b.SampleTimeDelta[i]))
+//@   loop 1 invariant i < nrEntries && snEntry(b, sampleStartTime) == i ==> snPos(b, sampleStartTime) == ceilDiv(sampleStartTime - sttsTime(b.SampleCount, b.SampleTimeDelta, i), uint64(b.SampleTimeDelta[i]))
 
 // ---------------------------------------------------------------- stss (8.6.2)
 // sample s is a sync sample iff its number is listed; ISO: the list is in strictly increasing order
@@ -174,7 +201,7 @@ package mp4
 
 //@ func (*StssBox).IsSyncSample
 //@   requires stssSorted(b)
-//@   ensures isSync == stssListed(b, sampleNr)
+//@   ensures[C09] isSync == stssListed(b, sampleNr)
 //@   assigns nothing
 //@   loop 1 invariant 0 <= i && i <= j && j <= nrSamples && nrSamples == len(b.SampleNumber)
 //@   loop 1 invariant forall k int :: 0 <= k && k < i ==> b.SampleNumber[k] < sampleNr
@@ -192,19 +219,19 @@ package mp4
 //@ pred cttsIn(b *CttsBox, s uint32, k int) = 0 <= k && k < len(b.SampleOffset) && b.EndSampleNr[k] < s && s <= b.EndSampleNr[k+1]
 
 //@ func (*CttsBox).NrSampleCount
-//@   ensures result == len(b.SampleOffset)
+//@   ensures[C09] result == len(b.SampleOffset)
 //@   assigns nothing
 
 //@ func (*CttsBox).SampleCount
 //@   requires cttsOK(b)
 //@   requires 0 <= i && i < len(b.SampleOffset)
-//@   ensures result == b.EndSampleNr[i+1] - b.EndSampleNr[i]
+//@   ensures[C09] result == b.EndSampleNr[i+1] - b.EndSampleNr[i]
 //@   assigns nothing
 
 //@ func (*CttsBox).GetCompositionTimeOffset
 //@   requires cttsOK(b)
 //@   requires 1 <= sampleNr && sampleNr <= cttsTotal(b)
-//@   ensures exists k int :: cttsIn(b, sampleNr, k) && result == b.SampleOffset[k]
+//@   ensures[C09] exists k int :: cttsIn(b, sampleNr, k) && result == b.SampleOffset[k]
 //@   assigns nothing
 //@   loop 1 invariant 0 <= i && i <= j && j <= len(b.EndSampleNr)
 //@   loop 1 invariant forall k int :: 0 <= k && k < i ==> b.EndSampleNr[k] < sampleNr
@@ -237,7 +264,7 @@ package mp4
 //@ func (*StscBox).FindEntryNrForSampleNr
 //@   requires len(b.Entries) < (1 << 31) && stscSamplesSorted(b)
 //@   requires int(lowEntryIdx) < len(b.Entries) && b.Entries[lowEntryIdx].FirstSampleNr <= sampleNr
-//@   ensures result >= lowEntryIdx && stscSampleIn(b, sampleNr, int(result))
+//@   ensures[C09] result >= lowEntryIdx && stscSampleIn(b, sampleNr, int(result))
 //@   assigns nothing
 //@   loop 1 invariant lowEntryIdx <= low && low <= high && int(high) <= len(b.Entries) && low >= 0
 //@   loop 1 invariant forall k int :: int(lowEntryIdx) <= k && k < int(low) ==> b.Entries[k].FirstSampleNr <= sampleNr
@@ -248,20 +275,25 @@ package mp4
 //@ func (*StscBox).findEntryNrForChunkNr
 //@   requires len(b.Entries) > 0 && len(b.Entries) < (1 << 31) && b.Entries[0].FirstChunk == 1 && stscChunksSorted(b)
 //@   requires chunkNr >= 1
-//@   ensures stscChunkIn(b, chunkNr, int(result))
+//@   ensures[C09] stscChunkIn(b, chunkNr, int(result))
 //@   assigns nothing
 //@   loop 1 invariant 0 <= low && low <= high && high <= len(b.Entries)
 //@   loop 1 invariant forall k int :: 0 <= k && k < low ==> b.Entries[k].FirstChunk <= chunkNr
 //@   loop 1 invariant forall k int :: high <= k && k < len(b.Entries) ==> b.Entries[k].FirstChunk > chunkNr
 //@   loop 1 decreases high - low
 
-// ChunkNrFromSampleNr: sampleNr is an int but is truncated to uint32 (stsc.go:198): precondition 1 <= sampleNr < 2^32.
+// ChunkNrFromSampleNr: sampleNr is an int but is truncated to uint32 (stsc.go): precondition 1 <= sampleNr < 2^32.
 // Chunk numbers are stated modulo 2^32 like the code (the last run is unbounded in stsc alone).
+// The repaired code returns an error when the run containing the sample has samples_per_chunk == 0 (no division by
+// zero), so stscSpcOK is no longer required; only what the binary search over the cached first sample numbers needs is.
+//@ pred stscSamplesOK(b *StscBox) = len(b.Entries) > 0 && len(b.Entries) < (1 << 31) && b.Entries[0].FirstSampleNr == 1 && stscSamplesSorted(b)
 //@ func (*StscBox).ChunkNrFromSampleNr
-//@   requires stscOK(b)
+//@   requires stscSamplesOK(b)
 //@   requires 1 <= sampleNr && sampleNr <= 0xFFFFFFFF
-//@   ensures err == nil
-//@   ensures exists k int :: stscSampleIn(b, uint32(sampleNr), k) && b.Entries[k].FirstSampleNr == stscFirst(b.Entries, k) && chunkNr == int(b.Entries[k].FirstChunk + (uint32(sampleNr) - b.Entries[k].FirstSampleNr) / b.Entries[k].SamplesPerChunk) && firstSampleInChunk == int(b.Entries[k].FirstSampleNr + ((uint32(sampleNr) - b.Entries[k].FirstSampleNr) / b.Entries[k].SamplesPerChunk) * b.Entries[k].SamplesPerChunk)
+//@   ensures[C09] exists k int :: stscSampleIn(b, uint32(sampleNr), k) && (err != nil) == (b.Entries[k].SamplesPerChunk == 0) && (err != nil ==> chunkNr == 0 && firstSampleInChunk == 0) && (err == nil ==> chunkNr == int(b.Entries[k].FirstChunk + (uint32(sampleNr) - b.Entries[k].FirstSampleNr) / b.Entries[k].SamplesPerChunk) && firstSampleInChunk == int(b.Entries[k].FirstSampleNr + ((uint32(sampleNr) - b.Entries[k].FirstSampleNr) / b.Entries[k].SamplesPerChunk) * b.Entries[k].SamplesPerChunk))
+// the cached first sample number of that run is the one of the naive expansion (representation invariant stscCacheOK)
+//@   ensures[C09] stscCacheOK(b) ==> (exists k int :: stscSampleIn(b, uint32(sampleNr), k) && b.Entries[k].FirstSampleNr == stscFirst(b.Entries, k))
+//@   ensures[C09] stscSpcOK(b) ==> err == nil
 // not proved (both solvers time out on the 32-bit identity a - (a/d)*d < d): the chunk found really contains the sample,
 //   firstSampleInChunk <= sampleNr && sampleNr - firstSampleInChunk < b.Entries[k].SamplesPerChunk
 //@   assigns nothing
@@ -269,27 +301,28 @@ package mp4
 //@ func (*StscBox).GetChunk
 //@   requires stscOK(b)
 //@   requires chunkNr >= 1
-//@   ensures exists k int :: stscChunkIn(b, chunkNr, k) && result.ChunkNr == chunkNr && result.NrSamples == b.Entries[k].SamplesPerChunk && result.StartSampleNr == stscFirst(b.Entries, k) + (chunkNr - b.Entries[k].FirstChunk) * b.Entries[k].SamplesPerChunk
+//@   ensures[C09] exists k int :: stscChunkIn(b, chunkNr, k) && result.ChunkNr == chunkNr && result.NrSamples == b.Entries[k].SamplesPerChunk && result.StartSampleNr == stscFirst(b.Entries, k) + (chunkNr - b.Entries[k].FirstChunk) * b.Entries[k].SamplesPerChunk
 //@   assigns nothing
 
 // Sample description index: one value per run (entry), or a single value for all runs.
 //@ pred stscSdiOK(b *StscBox) = b.singleSampleDescriptionID != 0 || len(b.SampleDescriptionID) == len(b.Entries)
 //@ spec stscSdi(b *StscBox, k int) uint32 = ite(b.singleSampleDescriptionID != 0, b.singleSampleDescriptionID, b.SampleDescriptionID[k])
 
-// GetSampleDescriptionID(chunkNr): documented as "for chunk", ISO: the index of the run containing the chunk (clause ISO).
-// The code indexes the per-run slice with chunkNr-1, i.e. it treats its argument as a 1-based ENTRY number: clause ISO and,
-// for chunkNr > number of entries, the index check FAIL (finding; cmd/mp4ff-crop/main.go:483 passes a chunk number).
-// What is proved is the entry-number reading (requires 1 <= chunkNr <= number of entries).
+// GetSampleDescriptionID(chunkNr): ISO: the sample description index of the run (entry) containing chunk chunkNr.
+// The repaired code looks the run up with findEntryNrForChunkNr; with a single common value no table lookup is made
+// and nothing is required. chunkNr is an int truncated to uint32: 1 <= chunkNr < 2^32 when the table is consulted.
+//@ pred stscChunksOK(b *StscBox) = len(b.Entries) > 0 && len(b.Entries) < (1 << 31) && b.Entries[0].FirstChunk == 1 && stscChunksSorted(b)
 //@ func (*StscBox).GetSampleDescriptionID
-//@   requires stscOK(b) && stscSdiOK(b)
-//@   requires 1 <= chunkNr && chunkNr <= len(b.Entries)
-//@   ensures result == stscSdi(b, chunkNr - 1)
-//@   ensures[ISO] exists k int :: stscChunkIn(b, uint32(chunkNr), k) && result == stscSdi(b, k)
+//@   requires stscSdiOK(b)
+//@   requires b.singleSampleDescriptionID == 0 ==> stscChunksOK(b) && 1 <= chunkNr && chunkNr <= 0xFFFFFFFF
+//@   ensures[C09] forall k int :: stscChunkIn(b, uint32(chunkNr), k) ==> result == stscSdi(b, k)
+//@   ensures[C09] b.singleSampleDescriptionID == 0 ==> (exists k int :: stscChunkIn(b, uint32(chunkNr), k) && result == stscSdi(b, k))
+//@   ensures b.singleSampleDescriptionID != 0 ==> result == b.singleSampleDescriptionID
 //@   assigns nothing
 
 //@ func (*StscBox).SetSingleSampleDescriptionID
 //@   ensures b.singleSampleDescriptionID == sampleDescriptionID && len(b.SampleDescriptionID) == 0
-//@   ensures sampleDescriptionID != 0 ==> stscSdiOK(b) && (forall k int :: 0 <= k && k < len(b.Entries) ==> stscSdi(b, k) == sampleDescriptionID)
+//@   ensures[C09] sampleDescriptionID != 0 ==> stscSdiOK(b) && (forall k int :: 0 <= k && k < len(b.Entries) ==> stscSdi(b, k) == sampleDescriptionID)
 //@   ensures len(b.Entries) == old(len(b.Entries)) && (forall k int :: 0 <= k && k < len(b.Entries) ==> b.Entries[k] == old(b.Entries[k]))
 //@   assigns b.singleSampleDescriptionID, b.SampleDescriptionID
 
@@ -299,9 +332,9 @@ package mp4
 //@ func (*StscBox).GetContainingChunks
 //@   requires len(b.Entries) > 0 && len(b.Entries) < (1 << 31) && b.Entries[0].FirstSampleNr == 1 && stscSamplesSorted(b) && stscSpcOK(b)
 //@   requires forall k int :: stscSampleIn(b, endSampleNr, k) ==> stscChunkOf(b, endSampleNr, k) < 0xFFFFFFFF
-//@   ensures (result1 != nil) == (startSampleNr == 0 || endSampleNr < startSampleNr)
+//@   ensures[C09] (result1 != nil) == (startSampleNr == 0 || endSampleNr < startSampleNr)
 //@   ensures result1 != nil ==> len(result0) == 0
-//@   ensures result1 == nil ==> (forall j int :: 0 <= j && j < len(result0) ==> result0[j].ChunkNr == result0[0].ChunkNr + uint32(j))
+//@   ensures[C09] result1 == nil ==> (forall j int :: 0 <= j && j < len(result0) ==> result0[j].ChunkNr == result0[0].ChunkNr + uint32(j))
 //@   loop 1 invariant int(entryNr) < len(b.Entries) && nrEntries == uint32(len(b.Entries))
 //@   loop 1 invariant startChunkNr <= chunkNr && endChunkNr < 0xFFFFFFFF
 //@   loop 1 invariant len(chunks) == int(chunkNr - startChunkNr)
